@@ -151,6 +151,36 @@ def guess_job(job):
     return out
 
 
+def bathdyn_job(job):
+    """Numerical (metamorphic): bath-mode occupations and two-time bath correlations derived from the system correlations
+    (TwoTimeBathCorrelations) are numbers, not operators: the same in every basis."""
+    import oqupy
+    from oqupy import bath_dynamics
+    d, kind, seed = job
+    v = probes.haar_unitary(d, seed, "bathdyn", d) if kind == "haar" else probes.structured_unitary(d, "fourier")
+    o = np.diag(np.linspace(0.5, -0.5, d)).astype(complex)
+    h = np.diag(np.linspace(0.3, -0.3, d)).astype(complex) + 0.4 * (np.eye(d, k=1) + np.eye(d, k=-1))
+    rho0 = probes.generic_rho(d, seed)
+    corr = oqupy.PowerLawSD(alpha=0.3, zeta=1.0, cutoff=2.0, cutoff_type="exponential", temperature=0.5)
+    params = oqupy.TempoParameters(dt=0.1, epsrel=1e-10, dkmax=None)
+
+    def run_in(rot):
+        c = lambda m: rot @ m @ rot.conj().T
+        bath = oqupy.Bath(c(o), corr)
+        pt = oqupy.PtTempo(bath, 0.0, 0.61, params).get_process_tensor(progress_type="silent")
+        b = bath_dynamics.TwoTimeBathCorrelations(oqupy.System(c(h)), bath, pt, initial_state=c(rho0))
+        occ = b.occupation(1.3, progress_type="silent")[1]
+        cc = [b.correlation(1.3, 0.2, freq_2=0.9, time_2=0.5, dagg=dg, progress_type="silent") for dg in ((1, 0), (0, 0))]
+        return np.concatenate([np.asarray(occ, dtype=complex), np.asarray(cc, dtype=complex)])
+    try:
+        a = run_in(np.eye(d, dtype=complex))
+        b_ = run_in(v)
+    except Exception as ex:  # pylint: disable=broad-except
+        return [{"what": "exception", "detail": "%s: %s" % (type(ex).__name__, str(ex)[:160])}]
+    err = float(np.max(np.abs(a - b_)))
+    return [] if err < 1e-7 else [{"what": "bath-observables-depend-on-the-basis", "err": err, "scale": float(np.max(np.abs(a)))}]
+
+
 def run(ctx):
     quick = ctx.tier == "quick"
     space = "UNION {[1..d -> (-1)..2] : d \\in 2..3}" if quick else "UNION {[1..d -> (-1)..2] : d \\in 2..4}"
@@ -199,6 +229,11 @@ def run(ctx):
         ctx.case({"check": "dissipative system in a complex basis (numerical)", "method": j[0], "d": j[1], "V": j[2]}, nontrivial=True)
         for x in mm:
             ctx.violation("C05:dissipative:%s:%s" % (j[0], x["what"]), "%s: %s" % (j[:3], x), {"dissipative": list(j)})
+    bjobs = [(d, k, ctx.seed) for d in (2, 3) for k in ("haar", "fourier")]
+    for j, mm in zip(bjobs, core.pmap(bathdyn_job, bjobs)):
+        ctx.case({"check": "bath occupations / correlations in a rotated basis (numerical)", "d": j[0], "V": j[1]}, nontrivial=True)
+        for x in mm:
+            ctx.violation("C05:bath-dynamics:%s" % x["what"], "%s: %s" % (j[:2], x), {"bathdyn": list(j)})
     gjobs = [(d, k, ctx.seed) for d in (2, 3) for k in ("haar", "fourier")]
     for j, mm in zip(gjobs, core.pmap(guess_job, gjobs)):
         ctx.case({"check": "estimated parameters in a rotated basis", "d": j[0], "V": j[1]}, nontrivial=True)
@@ -221,6 +256,10 @@ def replay(ctx, rep):
         ctx.case(eng.case_id(c["case"], c["variant"]))
         for mm in res["mismatch"]:
             ctx.violation("C05:replay:" + mm["what"], str(mm), c)
+    elif "bathdyn" in c:
+        ctx.case(c)
+        for x in bathdyn_job(tuple(c["bathdyn"])):
+            ctx.violation("C05:replay:" + x["what"], str(x), c)
     elif "guess" in c:
         ctx.case(c)
         for x in guess_job(tuple(c["guess"])):
